@@ -1917,6 +1917,7 @@ class Engine:
     else:
       self.process_hints(st, lc["at_exit"], pre, label + "/at-exit", line)
       self.exec_block(s.orelse, st)
+      self.stop_at_exit(lc, label, line)
 
   def pre_overlay(self, st, body):
     """Values of the loop-modified variables at the head of the analysed iteration, as pre_<name>."""
@@ -2266,6 +2267,15 @@ class Engine:
               st.frame.env.pop(nm, None)
           break
       self.exec_block(s.orelse, st)
+      self.stop_at_exit(lc, f"{self.cur.qual}/loop{ordinal}", getattr(s, "lineno", 0))
+
+  def stop_at_exit(self, lc, label, line):
+    """Loop option stop_at_exit: the rest of the function behind the (normally left) loop is a floating-point tail that
+    the contract says nothing about; it is not analysed and is assumed to return normally (listed in the evidence)."""
+    if lc.get("stop_at_exit"):
+      self.abstracted.add(f"body of {self.cur.qual} behind {label.split('/')[-1]} (floating-point tail): assumed to "
+                          "return normally")
+      raise TailAbstracted()
 
   def abstract_loop(self, st, s, lc, ordinal):
     """Loop declared `abstract`: the body is not analysed; every name it assigns and every heap object it may mutate is
